@@ -1591,7 +1591,7 @@ async def run_transports(ctx: Ctx, use_model: bool, quick: bool):
     from ipv8_rust_tunnels import generate_session_keys
     AutoMockEndpoint.SEND_INET_EXCEPTION_TO_LOOP = False
     rng = ctx.rng
-    for a in (SRC_ADDR, ("5.6.7.8", 9), ("10.0.0.9", 7)):
+    for a in (SRC_ADDR, ("5.6.7.8", 9), ("10.0.0.9", 7), ("::1", 9), ("fe80::2", 1234)):
         if a not in internet:
             MockEndpoint(a, a).open()
     lines, expect = [], []
@@ -1675,27 +1675,51 @@ async def run_transports(ctx: Ctx, use_model: bool, quick: bool):
         lines.append(f"cellhdr {hx(pkt)}")
         expect.append((got, replay))
 
-    # ---- LAN broadcast bootstrap endpoint (oracle only: it hands matching datagrams to the overlay's on_packet)
-    w = World(ctx, "broadcast-bootstrap")
+    # ---- LAN broadcast bootstrap endpoint: every endpoint family the node can be configured with x beacon sources of
+    #      both families; compared with the model (who is called, which handlers are entered), oracle "returns normally"
+    from ipv8.messaging.interfaces.udp.endpoint import UDPEndpoint, UDPv6Endpoint
+    from ipv8.peerdiscovery.community import DiscoveryCommunity
     Probe = make_probe_community()
-    o = w.add_overlay(Probe)
-    bep = BroadcastBootstrapEndpoint(o)
-    PP = bytes(o.get_prefix())
-    cases = [HDR_ANNOUNCE + PP, HDR_ANNOUNCE + PP[:10], HDR_ANNOUNCE, HDR_ANNOUNCE[:3], HDR_ANNOUNCE + PP + b"x", b""] + \
-            [PP[:k] for k in range(0, 23, 3)] + [PP + bytes([m]) + rbytes(rng, k) for m in (1, 2, 40, 60, 200, 246) for k in (0, 5)] + \
-            [rbytes(rng, k) for k in (1, 7, 30)]
-    for d in cases:
-        for addr in (SRC_ADDR, ("10.0.0.9", 7, 0, 0)):
-            ctx.count("broadcast:datagram_received")
-            ctx.case(("bcast", addr, d), True)
-            w.current = d
+    for epname, mk in (("mock-ipv4", None), ("udp-ipv4", lambda: UDPEndpoint(port=0, ip="127.0.0.1")),
+                       ("udp-ipv6", lambda: UDPv6Endpoint(port=0, ip="::1"))):
+        ep = None
+        if mk is not None:
+            ep = mk()
             try:
-                bep.datagram_received(d, addr[:2] if len(addr) > 2 else addr)
-            except Exception as e:
-                fail(ctx, f"{site_of(e)}:{type(e).__name__}",
-                     f"{type(e).__name__} ({str(e)[:100]}) reached the broadcast bootstrap endpoint's transport callback",
-                     {"kind": "broadcast", "data": d.hex()})
-    await w.close()
+                ok = bool(await ep.open())
+            except Exception:
+                ok = False
+            if not ok or not ep.is_open():
+                ctx.count(f"broadcast:{epname}:socket-not-opened(_running forced)")
+                ep._running = True
+        w = World(ctx, f"broadcast:{epname}", ep=ep)
+        for cls in (Probe, DiscoveryCommunity):
+            o = w.add_overlay(cls)
+            bep = BroadcastBootstrapEndpoint(o)
+            PP = bytes(o.get_prefix())
+            cases = [HDR_ANNOUNCE + PP, HDR_ANNOUNCE + PP[:10], HDR_ANNOUNCE, HDR_ANNOUNCE[:3], HDR_ANNOUNCE + PP + b"x", b""] + \
+                    [PP[:k] for k in range(0, 23, 3)] + \
+                    [PP + bytes([m]) + rbytes(rng, k) for m in (1, 2, 3, 40, 60, 200, 246) for k in (0, 5)] + \
+                    [rbytes(rng, k) for k in (1, 7, 30)]
+            for d in cases:
+                for addr in (SRC_ADDR, ("10.0.0.9", 7), ("::1", 9), ("fe80::2", 1234)):
+                    ctx.count(f"broadcast:{epname}:source-{'v6' if ':' in addr[0] else 'v4'}")
+                    ctx.case(("bcast", epname, cls.__name__, addr, d), True)
+                    w.current = d
+                    w.events = []
+                    replay = {"kind": "broadcast", "endpoint": epname, "overlay": cls.__name__, "source": list(addr),
+                              "data": d.hex()}
+                    try:
+                        bep.datagram_received(d, addr)
+                    except Exception as e:
+                        fail(ctx, f"{site_of(e)}:{type(e).__name__}",
+                             f"{type(e).__name__} ({str(e)[:120]}) reached the broadcast bootstrap socket's transport callback "
+                             f"(node endpoint {epname}, beacon/datagram from {addr[0]}) for a {len(d)}-byte datagram", replay)
+                        continue
+                    w.lines.append(f"bcast {w.lid(o)} {hx(HDR_ANNOUNCE)} {hx(w.addr_bytes(addr))} {hx(d)}")
+                    w.expect.append((" ".join(w.events) + " exn=none", "none", dict(replay, datagram=d.hex()), "broadcast"))
+        w.compare(use_model)
+        await w.close()
 
     if use_model and lines:
         for ln, model, (impl, replay) in zip(lines, ctx.driver().batch(lines), expect):
